@@ -170,6 +170,17 @@ def big_records():
     for n in (16383, 16384):
         out.append(('tls_record', TlsRecord, 'tls_fragment_%d' % n,
                     bytes(TlsRecord(b'a' * n, v12, sp.TlsContentType.APPLICATION_DATA).compose())))
+    # the three header fields together: every content type x {TLS 1.0, 1.2, 1.3} x lengths up to the TLS 1.3
+    # ciphertext ceiling 2^14 + 256 (RFC 8446 s5.2); whatever compose() emits, the parser must take back
+    for vname in ('TLS1', 'TLS1_2', 'TLS1_3'):
+        ver = TlsProtocolVersion(getattr(TlsVersion, vname))
+        for ct in sp.TlsContentType:
+            for n in (16385, 16500, 16640):
+                try:
+                    out.append(('tls_record', TlsRecord, 'tls_%s_%s_%d' % (vname, ct.name.lower(), n),
+                                bytes(TlsRecord(b'a' * n, ver, ct).compose())))
+                except Exception:  # noqa - not composable: nothing to read back
+                    pass
     for n in (32768, 34000):
         out.append(('ssh_init', sr.SshRecordInit, 'ssh_payload_%d' % n, bytes(sr.SshRecordInit(
             ss.SshDisconnectMessage(ss.SshReasonCode.BY_APPLICATION, 'x' * n, '')).compose())))
